@@ -348,6 +348,7 @@ pub fn exec(cfg: &XferCfg, or: &Oracles, render: bool) -> RunOutput {
     let mut w = build(cfg);
     let mut ck = StepChecker::new(cfg);
     let mut horizon = false;
+    let mut blocked = false;
     loop {
         if w.sim.steps >= cfg.horizon {
             horizon = true;
@@ -370,7 +371,17 @@ pub fn exec(cfg: &XferCfg, or: &Oracles, render: bool) -> RunOutput {
         if can_drop {
             kinds.push(crate::explore::Cost::Fault);
         }
-        let c = crate::explore::choose(&kinds);
+        let c = if can_drop {
+            crate::explore::choose(&kinds)
+        } else {
+            match w.sim.choose_enabled(&en) {
+                Some(c) => c,
+                None => {
+                    blocked = true;
+                    break;
+                }
+            }
+        };
         if c >= en.len() {
             w.drop_mux(cfg.drop_mux_when_writers_done.unwrap_or(0));
             w.sim.log.push(Step::Extra(0));
@@ -381,8 +392,11 @@ pub fn exec(cfg: &XferCfg, or: &Oracles, render: bool) -> RunOutput {
         let item = w.sim.apply(&step);
         ck.after_step(&w, cfg, or, &step, item.as_ref());
     }
-    ck.at_end(&w, cfg, or, horizon);
+    if !blocked {
+        ck.at_end(&w, cfg, or, horizon);
+    }
     let mut out = RunOutput {
+        blocked,
         steps: w.sim.steps,
         fingerprints: std::mem::take(&mut ck.fps),
         witnesses: ck.witnesses,
